@@ -187,6 +187,13 @@ def patched_start(self):
     if sim is not None and sim.current() is not None and not sim.killed:
         sim.yield_()
         sim.spawn_thread(self)
+        # the real Thread.start() waits until the child is running: the child may well get ahead of its parent here;
+        # with `spawn_stall_pct` the parent is descheduled for `spawn_stall` virtual seconds (fault: thread_stall)
+        pct = sim.cfg.get("spawn_stall_pct", 0)
+        if pct and sim.chance("sched", pct):
+            me = sim.current()
+            sim.stall(me, sim.cfg.get("spawn_stall", 0.002))
+        sim.yield_()
         return None
     if sim is not None and sim.killed and sim.current() is not None:
         raise S.SimAbort()
